@@ -113,8 +113,26 @@ def gen_cases(quick, rng):
     return cases
 
 
-def build(counts, base):
-    return [brace_pat('%s%d_' % (base, i), n) for i, n in enumerate(counts)]
+def build(counts, base, mode='brace'):
+    if mode == 'brace':
+        return [brace_pat('%s%d_' % (base, i), n) for i, n in enumerate(counts)]
+    # the same counts through SPLIT, one of the pieces being the empty pattern (it is a pattern like any other: it is
+    # compiled and it counts) - at the end, at the start or in the middle of the string
+    out = []
+    for i, n in enumerate(counts):
+        pieces = ['%s%d_%d' % (base, i, k) for k in range(1, n)]
+        if n == 1:
+            out.append('%s%d_1' % (base, i))
+        elif i > 0 or base != 'i':
+            # one empty piece per call (two would be duplicates of each other): the others split into n written pieces
+            out.append('|'.join(pieces + ['%s%d_%d' % (base, i, n)]))
+        elif mode == 'split_tail':
+            out.append('|'.join(pieces) + '|')
+        elif mode == 'split_lead':
+            out.append('|' + '|'.join(pieces))
+        else:
+            out.append('|'.join(pieces[:1] + [''] + pieces[1:]))
+    return out
 
 
 KNOWN = {}   # id -> predicate(api, L, inc, exc); the three C11 defects found so far are fixed (known_findings.json)
@@ -130,7 +148,7 @@ def run(ctx):
     F = corr.fl
     cases = []
     Ls = [0, 1, 2, 3, 4, 5, 7, -1]
-    toks = ['a', 'b', '{a,b}', '{1..3}', '{a,b}{c,d}', 'x|y', 'a|a', '!n', '{1..12}', '*', '-m']
+    toks = ['a', 'b', '{a,b}', '{1..3}', '{a,b}{c,d}', 'x|y', 'a|a', '!n', '{1..12}', '*', '-m', 'x|', '|y', 'a||b', '{a|,b|}', '|']
     n = 1500 if ctx.quick else 12000
     for i in range(n):
         ps = [rng.choice(toks) + rng.choice(['', rng.choice(toks)]) for _ in range(rng.randint(0, 3))]
@@ -151,9 +169,12 @@ def run(ctx):
         nontriv = set()
         samples = []
         known_hit = {}
-        for (L, inc, exc) in gen_cases(ctx.quick, rng):
-            pats = build(inc, 'i')
-            ex = None if exc is None else build(exc, 'e')
+        all_cases = [(L, inc, exc, 'brace') for (L, inc, exc) in gen_cases(ctx.quick, rng)]
+        all_cases += [(L, inc, exc, md) for (L, inc, exc) in gen_cases(ctx.quick, rng) for md in ('split_tail', 'split_lead', 'split_mid')
+                      if L is not None and 0 < L <= 33 and sum(inc) + sum(exc or []) <= 40 and inc[0] > 1]
+        for (L, inc, exc, md) in all_cases:
+            pats = build(inc, 'i', md)
+            ex = None if exc is None else build(exc, 'e', md)
             total = sum(inc) + (sum(exc) if exc else 0)
             effL = 1000 if L is None else L
             for api, fn in table.items():
